@@ -151,6 +151,11 @@ func ruleR05aInto(h *H, rule string) {
 			if all && nret > 0 {
 				stored = true
 			}
+			if run := closureRunsAt(cur); run != nil {
+				// a literal handed to a "do this under the lock" helper runs at that call
+				cur, at = run.Parent(), run
+				continue
+			}
 			site := ir.SingleCallSite(cur)
 			if site == nil {
 				break
